@@ -98,6 +98,15 @@ def progBytes (s : Stream) : List (Stream × Nat) → Nat
   | [] => 0
   | (s', n) :: rest => (if s' = s then n else 0) + progBytes s rest
 
+/-- WHAT a stream carries, not only how much: a pipe is first-in first-out, so the content of a
+    stream is the concatenation of the chunks the program wrote to it, in program order.  Chunk
+    number `i` of the program (counting from `i0`) consists of `n` copies of the byte tagged
+    `i % 26`; the content is given run-length encoded, empty chunks leave no trace. -/
+def contentRuns (s : Stream) : Nat → List (Stream × Nat) → List (Nat × Nat)
+  | _, [] => []
+  | i0, (s', n) :: rest =>
+    if s' = s ∧ 0 < n then (i0 % 26, n) :: contentRuns s (i0 + 1) rest else contentRuns s (i0 + 1) rest
+
 /-- `waitErrToExitCode`: nil ↦ 0, exit status n ↦ n, killed by a signal or anything else ↦ -1 -/
 inductive WaitResult where
   | success | exit (n : Nat) | signaled | other
